@@ -39,7 +39,7 @@ pub fn hashmap_retain_key<F: Fn(i32) -> bool>(m: &mut HashMap<i32, u64>, f: F)
 #[verifier::external_body] pub fn congestion_default() -> (r: CongestionControl)
     ensures !r.fast_recovery_mode, r.nak_count == 0, r.nak_burst_count == 0, r.last_nak_time_ms == 0 { unimplemented!() }
 #[verifier::external_body] pub fn cached_quality_default() -> (r: CachedQuality)
-    ensures r.multiplier == 1.0f64, r.last_calculated_ms == 0 { unimplemented!() }
+    ensures r.multiplier == 1.0f64, r.last_calculated_ms == 0, q_ok(r.multiplier) { unimplemented!() }
 #[verifier::external_body] pub fn reconnection_default_with_grace(g: u64) -> (r: ReconnectionState)
     ensures r.startup_grace_deadline_ms == g, r.last_reconnect_attempt_ms == 0, r.reconnect_failure_count == 0, r.connection_established_ms == 0
 { unimplemented!() }
@@ -100,6 +100,17 @@ pub open spec fn max_u64(a: u64, b: u64) -> u64 { if a >= b { a } else { b } }
 pub open spec fn min_u64(a: u64, b: u64) -> u64 { if a <= b { a } else { b } }
 
 pub uninterp spec fn spec_quality(c: &SrtlaConnection, now: u64) -> f64;
+// ---- float-lemma table: ASSUMED here, PROVED bit-precisely by Kani on real f64 arithmetic (kx/src/lemmas.rs, same formulas) ----
+pub open spec fn q_ok(q: f64) -> bool { fge(q, 0.35f64) && fle(q, 1.2f64) }      // quality multiplier range [0.35, 1.1*1.03 <= 1.2]
+pub open spec fn cap_ok(c: f64) -> bool { fge(c, 0.1f64) && fle(c, 1.0f64) }     // soft-cap factor range [0.1, 1]
+pub uninterp spec fn i32_to_f64(x: i32) -> f64;
+#[verifier::external_body] pub fn cast_i32_f64(x: i32) -> (r: f64) ensures r == i32_to_f64(x) { x as f64 }
+#[verifier::external_body] pub proof fn lemma_score_gt_neg1(s: i32, w: f64, q: f64, cap: f64, gate: f64)
+    requires s >= 0, w == 0.8f64 || w == 1.0f64, q_ok(q), cap_ok(cap), gate == 0.02f64 || gate == 1.0f64,
+    ensures fgt(i32_to_f64(s).mul_spec(w).mul_spec(q).mul_spec(cap).mul_spec(gate), -1.0f64),
+        fgt(i32_to_f64(s).mul_spec(w).mul_spec(cap).mul_spec(gate), -1.0f64),
+{ }
+#[verifier::external_body] pub proof fn lemma_one_is_q_ok() ensures q_ok(1.0f64) { }
 pub uninterp spec fn spec_cap_packets(target: u64, rtt_min: f64) -> Option<i32>;
 pub open spec fn spec_cap_exceeded(c: &SrtlaConnection) -> bool {
     match spec_cap_packets(c.cc_target_bps, c.rtt.rtt_min_ms) { Some(cap) => c.in_flight_packets > cap, None => false }
@@ -127,7 +138,7 @@ impl SrtlaConnection {
     pub open spec fn spec_latched(&self) -> bool { self.stall_latched_since_ms != 0 }
     pub open spec fn usable(&self, now: u64) -> bool { self.connected && self.spec_sched() && !self.spec_timed_out(now) }
     pub open spec fn healthy(&self, now: u64) -> bool {
-        !self.spec_timed_out(now) && self.spec_sched() && !self.spec_latched() && !self.silence_pulled
+        self.connected && !self.spec_timed_out(now) && self.spec_sched() && !self.spec_latched() && !self.silence_pulled
     }
     pub open spec fn eligible(&self, now: u64) -> bool { !self.spec_timed_out(now) && self.spec_sched() && !self.stall_gated }
     pub open spec fn spec_score(&self) -> int {
@@ -216,7 +227,7 @@ QUALITY_STUB = r'''
 // on the real function (kx: quality_multiplier_range).  Here: a deterministic function of (link state, time).
 #[verifier::external_body]
 pub fn calculate_quality_multiplier(conn: &SrtlaConnection, current_time_ms: u64) -> (r: f64)
-    ensures r == spec_quality(conn, current_time_ms),
+    ensures r == spec_quality(conn, current_time_ms), q_ok(r),
 { unimplemented!() }
 '''
 
@@ -229,7 +240,7 @@ pub fn in_flight_cap_packets(cc_target_bps: u64, rtt_min_ms: f64) -> (r: Option<
 pub uninterp spec fn spec_soft_cap(c: &SrtlaConnection) -> f64;
 #[verifier::external_body]
 pub fn cc_soft_cap_multiplier(conn: &SrtlaConnection) -> (r: f64)
-    ensures r == spec_soft_cap(conn),
+    ensures r == spec_soft_cap(conn), cap_ok(r),
 { unimplemented!() }
 #[verifier::external_body]
 pub fn log_quality_state(c: &SrtlaConnection, quality_mult: f64, base: f64, final_score: f64, now_ms: u64) { }
@@ -281,6 +292,7 @@ PULL_ENSURES = [
 
 # ------------------------------------------------------------------ resets (C02, C06, C08)
 RESET_CORE_ENSURES = [
+    'final(self).quality_cache == old(self).quality_cache',
     C('C06+C08.acct.reset_core_state.window_back_to_20000', 'final(self).window == 20000'),
     C('C02+C08.acct.reset_core_state.nothing_in_flight', 'final(self).in_flight_packets == 0 && final(self).packet_log@.len() == 0 && final(self).highest_acked_seq == i32::MIN'),
     C('C08.acct.reset_core_state.back_to_registering', '!final(self).connected && final(self).phase is Registering'),
@@ -301,7 +313,7 @@ def RESET_CORE_ENSURES_PUBLIC(who):
         C('C13.acct.%s.clears_stall_state' % who, '''final(self).last_ack_or_rtt_sample_ms == 0 && !final(self).stall_gated && final(self).stall_latched_since_ms == 0
             && final(self).stall_recovery_since_ms == 0 && !final(self).silence_pulled'''),
         C('C01.acct.%s.queue_dropped' % who, 'final(self).batch_sender.queue.len() == 0 && final(self).batch_sender.wf()'),
-        'final(self).wf()', 'final(self).stall_probe_counter == 0',
+        'final(self).wf()', 'final(self).stall_probe_counter == 0', 'final(self).quality_cache == old(self).quality_cache',
     ]
 
 
@@ -370,7 +382,7 @@ SRTLA_ACK_ENSURES = [
 
 # ------------------------------------------------------------------ selection (C03, C04, C10, C11, C12)
 def WF_SEL(v):
-    return 'forall|i: int| 0 <= i < %s.len() ==> 0 <= (#[trigger] %s[i]).window && %s[i].batch_sender.wf()' % (v, v, v)
+    return 'forall|i: int| 0 <= i < %s.len() ==> 0 <= (#[trigger] %s[i]).window && %s[i].batch_sender.wf() && q_ok(%s[i].quality_cache.multiplier)' % (v, v, v, v)
 
 
 CLASSIC_ENSURES = [
@@ -379,6 +391,8 @@ CLASSIC_ENSURES = [
             && (forall|j: int| 0 <= j < conns.len() && (#[trigger] conns[j]).eligible(now_ms) ==> conns[j].spec_score() <= conns[r.unwrap() as int].spec_score())'''),
     C('C10.select.classic.first_maximum_wins', '''r is Some ==>
             (forall|j: int| 0 <= j < r.unwrap() && (#[trigger] conns[j]).eligible(now_ms) ==> conns[j].spec_score() < conns[r.unwrap() as int].spec_score())'''),
+    C('C03.select.classic.returns_a_link_whenever_a_connected_eligible_link_exists',
+      '(exists|i: int| 0 <= i < conns.len() && (#[trigger] conns[i]).eligible(now_ms) && conns[i].connected) ==> r is Some'),
     C('C03+C10.select.classic.none_only_if_no_scored_candidate', 'r is None ==> forall|j: int| 0 <= j < conns.len() && (#[trigger] conns[j]).eligible(now_ms) ==> conns[j].spec_score() < 0'),
 ]
 CLASSIC_INV = [
@@ -391,17 +405,58 @@ CLASSIC_INV = [
 
 ENH_ENSURES = [
     'final(conns).len() == old(conns).len()',
+    'forall|i: int| 0 <= i < old(conns).len() ==> q_ok((#[trigger] final(conns)[i]).quality_cache.multiplier)',
+    C('C03.select.enhanced.returns_a_link_whenever_a_connected_eligible_link_exists',
+      '(exists|i: int| 0 <= i < old(conns).len() && (#[trigger] old(conns)[i]).eligible(current_time_ms) && old(conns)[i].connected) ==> r is Some'),
+    C('C11.select.enhanced.capped_link_never_chosen_while_an_unconstrained_link_exists',
+      'r is Some && any_unc(old(conns)@, current_time_ms) ==> !spec_cap_exceeded(&old(conns)[r.unwrap() as int])'),
+    C('C04+C11.select.enhanced.result_is_a_connected_candidate', 'r is Some ==> r.unwrap() < old(conns).len() && enh_candidate(&old(conns)[r.unwrap() as int], current_time_ms, any_unc(old(conns)@, current_time_ms))'),
     C('C12.select.enhanced.writes_only_quality_cache', 'forall|i: int| 0 <= i < old(conns).len() ==> (#[trigger] final(conns)[i]).same_except_qc(&old(conns)[i])'),
     C('C04.select.enhanced.result_is_eligible', 'r is Some ==> r.unwrap() < final(conns).len() && final(conns)[r.unwrap() as int].eligible(current_time_ms)'),
 ]
 ENH_INV = [
     'i_nx <= conns.len()', 'conns.len() == old(conns).len()', WF_SEL('old(conns)'),
+    'any_unconstrained == any_unc(old(conns)@, current_time_ms)',
+    'forall|j: int| 0 <= j < conns.len() ==> q_ok((#[trigger] conns[j]).quality_cache.multiplier)',
+    'best_idx is None ==> best_score == -1.0f64',
+    C('C03.select.enhanced.returns_a_link_whenever_a_connected_eligible_link_exists',
+      'forall|j: int| 0 <= j < i_nx && enh_candidate(&#[trigger] old(conns)[j], current_time_ms, any_unconstrained) ==> best_idx is Some'),
+    C('C04+C11.select.enhanced.result_is_a_connected_candidate', 'best_idx is Some ==> best_idx.unwrap() < i_nx && enh_candidate(&old(conns)[best_idx.unwrap() as int], current_time_ms, any_unconstrained)'),
+    C('C04+C11.select.enhanced.result_is_a_connected_candidate', 'current_score is Some ==> last_idx is Some && last_idx.unwrap() < i_nx && enh_candidate(&old(conns)[last_idx.unwrap() as int], current_time_ms, any_unconstrained)'),
+    C('C11.select.enhanced.leaves_previous_link_only_if_skipped_or_beaten_by_10_percent',
+      'current_score is None && last_idx is Some && last_idx.unwrap() < i_nx ==> !enh_candidate(&old(conns)[last_idx.unwrap() as int], current_time_ms, any_unconstrained)'),
     C('C12.select.enhanced.writes_only_quality_cache', 'forall|j: int| 0 <= j < i_nx ==> (#[trigger] conns[j]).same_except_qc(&old(conns)[j])'),
     'forall|j: int| i_nx <= j < conns.len() ==> #[trigger] conns[j] == old(conns)[j]',
     C('C04.select.enhanced.result_is_eligible', 'best_idx is Some ==> best_idx.unwrap() < i_nx && old(conns)[best_idx.unwrap() as int].eligible(current_time_ms)'),
     C('C04.select.enhanced.result_is_eligible', 'current_score is Some ==> last_idx is Some && last_idx.unwrap() < i_nx && old(conns)[last_idx.unwrap() as int].eligible(current_time_ms)'),
 ]
-ENH_SPLICES = []
+ENH_SPLICES = [
+    ('let mut best_idx: Option<usize> = None;', 'let ghost mut qm: f64 = 1.0f64;', 'before'),
+    ('let score = if !enable_quality {', 'proof { qm = 1.0f64; }', 'before'),
+    ('let quality_mult = c.get_cached_quality_multiplier(current_time_ms);', 'proof { assert(q_ok(old(conns)[i as int].quality_cache.multiplier)); assert(q_ok(c.quality_cache.multiplier)); }', 'before'),
+    ('let final_score = base * quality_mult * cap_mult * gate_mult;', 'proof { qm = quality_mult; }', 'before'),
+    ('if Some(i) == last_idx {', '''proof {
+            let co = &old(conns)[i as int];
+            assert(enh_candidate(co, current_time_ms, any_unconstrained));
+            assert(co.spec_score() >= 0);
+            assert(score == spec_enh_score(co, any_unconstrained, enable_quality, qm));  // @ob C11.select.enhanced.score_is_base_x_phase_weight_x_quality_x_soft_cap_x_gate
+            lemma_one_is_q_ok();
+            assert(spec_phase_weight(co.phase) == 0.8f64 || spec_phase_weight(co.phase) == 1.0f64);
+            assert(q_ok(qm));
+            assert(cap_ok(cap_mult));
+            assert(gate_mult == 0.02f64 || gate_mult == 1.0f64);
+            lemma_score_gt_neg1(co.spec_score() as i32, spec_phase_weight(co.phase), qm, cap_mult, gate_mult);
+            assert(fgt(score, -1.0f64));
+        }''', 'before'),
+    ('    best_idx\n}', '''    proof {
+        // C11 hysteresis: the previous link is left only if it was skipped or the winner reaches 1.10 x its score
+        assert(last_idx is Some && best_idx != last_idx && last_idx.unwrap() < conns.len() ==>
+            (current_score is None ==> !enh_candidate(&old(conns)[last_idx.unwrap() as int], current_time_ms, any_unconstrained))
+            && (current_score is Some ==> !flt(best_score, current_score.unwrap().mul_spec(1.10f64))));  // @ob C11.select.enhanced.leaves_previous_link_only_if_skipped_or_beaten_by_10_percent
+    }
+    best_idx
+}''', 'replace'),
+]
 
 
 def ANY_UNCONSTRAINED_HELPER(u):
@@ -416,7 +471,16 @@ def ANY_UNCONSTRAINED_HELPER(u):
     pred = rules.clean_source(m.group(1), Counter()).strip()
     return '''
 pub open spec fn spec_unconstrained(c: &SrtlaConnection, now: u64) -> bool {
-    !c.spec_timed_out(now) && c.spec_sched() && !c.weak && !c.loss_degraded && !c.stall_gated && !spec_cap_exceeded(c)
+    c.connected && !c.spec_timed_out(now) && c.spec_sched() && !c.weak && !c.loss_degraded && !c.stall_gated && !spec_cap_exceeded(c)
+}
+pub open spec fn any_unc(conns: Seq<SrtlaConnection>, now: u64) -> bool { exists|j: int| 0 <= j < conns.len() && spec_unconstrained(&#[trigger] conns[j], now) }
+// a link the enhanced loop actually scores: eligible, connected and not hard-skipped by the in-flight cap
+pub open spec fn enh_candidate(c: &SrtlaConnection, now: u64, unc: bool) -> bool { c.eligible(now) && c.connected && !(unc && spec_cap_exceeded(c)) }
+pub open spec fn spec_gate_mult(c: &SrtlaConnection, unc: bool) -> f64 { if unc && (c.weak || c.loss_degraded) { 0.02f64 } else { 1.0f64 } }
+pub open spec fn spec_enh_score(c: &SrtlaConnection, unc: bool, enable_quality: bool, q: f64) -> f64 {
+    let base = i32_to_f64(c.spec_score() as i32).mul_spec(spec_phase_weight(c.phase));
+    if !enable_quality { base.mul_spec(spec_soft_cap(c)).mul_spec(spec_gate_mult(c, unc)) }
+    else { base.mul_spec(q).mul_spec(spec_soft_cap(c)).mul_spec(spec_gate_mult(c, unc)) }
 }
 // R12: helper generated from `conns.iter().any(|c| {..})`; the predicate text is copied from the source
 pub fn any_unconstrained_helper(conns: &[SrtlaConnection], current_time_ms: u64) -> (r: bool)
@@ -430,7 +494,9 @@ pub fn any_unconstrained_helper(conns: &[SrtlaConnection], current_time_ms: u64)
         decreases conns.len() - c_nx,
     {
         let c = &conns[c_nx]; c_nx += 1;
-        if %s { proof { assert(spec_unconstrained(&conns[c_nx - 1], current_time_ms)); } return true; }
+        if %s { proof {
+            assert(spec_unconstrained(&conns[c_nx - 1], current_time_ms));  // @ob C11+C03.select.enhanced.any_unconstrained_predicate
+        } return true; }
     }
     false
 }
@@ -451,7 +517,7 @@ def GATE_HELPER(u):
 // R12: helper generated from `conns.iter().any(|c| {..})` in apply_stall_gate; predicate text copied from the source
 pub fn any_healthy_helper(conns: &[SrtlaConnection], current_time_ms: u64) -> (r: bool)
     ensures
-        r == (exists|j: int| 0 <= j < conns.len() && #[trigger] conns[j].healthy(current_time_ms)),  // @ob C03.select.apply_stall_gate.any_healthy_predicate
+        r == exists_healthy(conns@, current_time_ms),  // @ob C03.select.apply_stall_gate.any_healthy_predicate
 {
     let mut c_nx: usize = 0;
     while c_nx < conns.len()
@@ -460,7 +526,9 @@ pub fn any_healthy_helper(conns: &[SrtlaConnection], current_time_ms: u64) -> (r
         decreases conns.len() - c_nx,
     {
         let c = &conns[c_nx]; c_nx += 1;
-        if %s { proof { assert(conns[c_nx - 1].healthy(current_time_ms)); } return true; }
+        if %s { proof {
+            assert(conns[c_nx - 1].healthy(current_time_ms));  // @ob C03.select.apply_stall_gate.any_healthy_predicate
+        } return true; }
     }
     false
 }
@@ -468,7 +536,18 @@ pub fn any_healthy_helper(conns: &[SrtlaConnection], current_time_ms: u64) -> (r
 
 
 CNT_OK = '(#[trigger] %s[i]).stall_gate_events < 0x7fff_ffff_ffff_ffff && %s[i].silence_pulls < 0x7fff_ffff_ffff_ffff && %s[i].latch_wf()'
-GATE_REQUIRES = ['forall|i: int| 0 <= i < old(conns).len() ==> ' + CNT_OK % ('old(conns)', 'old(conns)', 'old(conns)'), 'current_time_ms > 0']
+# Named predicates over ghost constants: inside a loop the solver then carries ONE atom instead of a quantifier it has to
+# re-prove at the end of every loop body (that re-proof was the unstable part of this function).
+GATE_PREDS = r'''
+pub open spec fn gate_pre_ok(o: Seq<SrtlaConnection>) -> bool {
+    forall|i: int| 0 <= i < o.len() ==> (#[trigger] o[i]).stall_gate_events < 0x7fff_ffff_ffff_ffff && o[i].silence_pulls < 0x7fff_ffff_ffff_ffff && o[i].latch_wf()
+}
+pub open spec fn gate_mid_ok(o: Seq<SrtlaConnection>, m: Seq<SrtlaConnection>, timeout: u64) -> bool {
+    o.len() == m.len() && forall|j: int| 0 <= j < m.len() ==> #[trigger] o[j].same_acct(&m[j]) && m[j].conn_timeout_ms == timeout && m[j].quality_cache == o[j].quality_cache && m[j].latch_wf()
+}
+pub open spec fn exists_healthy(s: Seq<SrtlaConnection>, now: u64) -> bool { exists|j: int| 0 <= j < s.len() && #[trigger] s[j].healthy(now) }
+'''
+GATE_REQUIRES = ['gate_pre_ok(old(conns)@)', 'current_time_ms > 0']
 GATE_ENSURES = [
     'final(conns).len() == old(conns).len()',
     'forall|i: int| 0 <= i < old(conns).len() ==> (#[trigger] final(conns)[i]).latch_wf()',
@@ -476,9 +555,10 @@ GATE_ENSURES = [
             && final(conns)[i].conn_timeout_ms == config.conn_timeout_ms && final(conns)[i].quality_cache == old(conns)[i].quality_cache'''),
     C('C12.select.apply_stall_gate.guard_off_clears_every_flag_and_latch', '''!config.stall_deselect ==> forall|i: int| 0 <= i < old(conns).len() ==> !(#[trigger] final(conns)[i]).stall_gated
             && !final(conns)[i].silence_pulled && final(conns)[i].stall_latched_since_ms == 0 && final(conns)[i].stall_recovery_since_ms == 0'''),
+    C('C03.select.apply_stall_gate.never_gates_the_last_usable_link', '''(exists|i: int| 0 <= i < final(conns).len() && (#[trigger] final(conns)[i]).usable(current_time_ms))
+            ==> exists|j: int| 0 <= j < final(conns).len() && (#[trigger] final(conns)[j]).usable(current_time_ms) && !final(conns)[j].stall_gated'''),
     C('C03+C04.select.apply_stall_gate.gated_only_while_a_healthy_link_exists', '''config.stall_deselect ==> forall|i: int| 0 <= i < old(conns).len() ==>
-            (#[trigger] final(conns)[i]).stall_gated == ((exists|j: int| 0 <= j < final(conns).len() && #[trigger] final(conns)[j].healthy(current_time_ms))
-                && (final(conns)[i].spec_latched() || final(conns)[i].silence_pulled))'''),
+            (#[trigger] final(conns)[i]).stall_gated == (exists_healthy(final(conns)@, current_time_ms) && (final(conns)[i].spec_latched() || final(conns)[i].silence_pulled))'''),
 ]
 _G1 = ['c_nx <= conns.len()', 'conns.len() == old(conns).len()',
        'forall|j: int| 0 <= j < c_nx ==> (#[trigger] conns[j]).same_except_timeout(&old(conns)[j]) && conns[j].conn_timeout_ms == config.conn_timeout_ms',
@@ -487,69 +567,84 @@ _G2 = ['c_nx <= conns.len()', 'conns.len() == old(conns).len()',
        C('C12.select.apply_stall_gate.guard_off_clears_every_flag_and_latch', '''forall|j: int| 0 <= j < c_nx ==> (#[trigger] conns[j]).same_except_stall_clear(&old(conns)[j]) && conns[j].conn_timeout_ms == config.conn_timeout_ms
                 && !conns[j].stall_gated && !conns[j].silence_pulled && conns[j].stall_latched_since_ms == 0 && conns[j].stall_recovery_since_ms == 0'''),
        'forall|j: int| c_nx <= j < conns.len() ==> (#[trigger] conns[j]).same_except_timeout(&old(conns)[j]) && conns[j].conn_timeout_ms == config.conn_timeout_ms']
-_G3 = ['c_nx <= conns.len()', 'conns.len() == old(conns).len()', 'current_time_ms > 0',
-       'forall|i: int| 0 <= i < conns.len() ==> ' + CNT_OK % ('old(conns)', 'old(conns)', 'old(conns)'),
-       C('C12.select.apply_stall_gate.accounting_untouched', 'forall|j: int| 0 <= j < c_nx ==> #[trigger] old(conns)[j].same_acct(&conns[j]) && conns[j].conn_timeout_ms == config.conn_timeout_ms && conns[j].quality_cache == old(conns)[j].quality_cache'),
-       'forall|j: int| 0 <= j < c_nx ==> (#[trigger] conns[j]).latch_wf()',
+_G3 = ['c_nx <= conns.len()', 'conns.len() == old(conns).len()', 'current_time_ms > 0', 'gate_pre_ok(old(conns)@)',
+       C('C12.select.apply_stall_gate.accounting_untouched', '''forall|j: int| 0 <= j < c_nx ==> old(conns)[j].same_acct(&#[trigger] conns[j]) && conns[j].conn_timeout_ms == config.conn_timeout_ms
+                && conns[j].quality_cache == old(conns)[j].quality_cache && conns[j].latch_wf()'''),
        'forall|j: int| c_nx <= j < conns.len() ==> (#[trigger] conns[j]).same_except_timeout(&old(conns)[j]) && conns[j].conn_timeout_ms == config.conn_timeout_ms']
 _G4 = ['c_nx <= conns.len()', 'conns.len() == old(conns).len()', 'conns.len() == pre4.len()',
-       'any_healthy == (exists|j: int| 0 <= j < pre4.len() && #[trigger] pre4[j].healthy(current_time_ms))',
-       'forall|j: int| 0 <= j < conns.len() ==> #[trigger] old(conns)[j].same_acct(&pre4[j]) && pre4[j].conn_timeout_ms == config.conn_timeout_ms && pre4[j].quality_cache == old(conns)[j].quality_cache',
+       'any_healthy == exists_healthy(pre4, current_time_ms)',
+       'gate_mid_ok(old(conns)@, pre4, config.conn_timeout_ms)',
        C('C03+C04.select.apply_stall_gate.gated_only_while_a_healthy_link_exists', '''forall|j: int| 0 <= j < c_nx ==> (#[trigger] conns[j]).same_except_gated(&pre4[j])
                 && conns[j].stall_gated == (any_healthy && (pre4[j].spec_latched() || pre4[j].silence_pulled))'''),
-       'forall|j: int| c_nx <= j < conns.len() ==> #[trigger] conns[j] == pre4[j]',
-       'forall|j: int| 0 <= j < pre4.len() ==> (#[trigger] pre4[j]).latch_wf()']
+       'forall|j: int| c_nx <= j < conns.len() ==> #[trigger] conns[j] == pre4[j]']
 GATE_INVS = [_G1, _G2, _G3, _G4]
 GATE_SPLICES = [
     ('let any_healthy = any_healthy_helper(conns, current_time_ms);', '''let ghost pre4 = conns@;
-    proof { assert forall|j: int| 0 <= j < conns.len() implies #[trigger] old(conns)[j].same_acct(&pre4[j]) && pre4[j].conn_timeout_ms == config.conn_timeout_ms && pre4[j].quality_cache == old(conns)[j].quality_cache by {
-        assert(old(conns)[j].same_acct(&conns[j])); } }''', 'after'),
-    ('return;', '''proof { assert forall|i: int| 0 <= i < conns.len() implies #[trigger] old(conns)[i].same_acct(&conns[i]) && conns[i].conn_timeout_ms == config.conn_timeout_ms && conns[i].quality_cache == old(conns)[i].quality_cache by {
-            assert(conns[i].same_except_stall_clear(&old(conns)[i])); }
-          assert forall|i: int| 0 <= i < conns.len() implies (#[trigger] conns[i]).latch_wf() by { assert(conns[i].stall_latched_since_ms == 0 && conns[i].stall_recovery_since_ms == 0); } }''', 'before'),
-    ('c.update_silence_pull(current_time_ms, min_in_flight, stale_ceiling_ms);', '''let ghost c0 = *c;
-        proof { assert(c0.same_except_timeout(&old(conns)[c_ix as int])); assert(old(conns)[c_ix as int].stall_gate_events < 0x7fff_ffff_ffff_ffff); }''', 'before'),
-    ('c.update_stall_latch(current_time_ms, min_in_flight, stale_ceiling_ms);', 'let ghost c1 = *c;', 'before'),
-    ('c.update_stall_latch(current_time_ms, min_in_flight, stale_ceiling_ms);', '''proof {
-            assert(c0.same_acct(&c1)); assert(c1.same_acct(&*c)); assert(old(conns)[c_ix as int].same_acct(&c0));
-            assert(old(conns)[c_ix as int].same_acct(&*c));
-            assert(c.conn_timeout_ms == config.conn_timeout_ms && c.quality_cache == old(conns)[c_ix as int].quality_cache);
-        }
-        let ghost cfin = *c;
-        proof {
-            assert(conns[c_ix as int] == cfin);
-            assert forall|j: int| 0 <= j < c_nx implies #[trigger] old(conns)[j].same_acct(&conns[j]) && conns[j].conn_timeout_ms == config.conn_timeout_ms && conns[j].quality_cache == old(conns)[j].quality_cache by {
-                if j != c_ix { assert(conns[j] == before3[j]); assert(old(conns)[j].same_acct(&before3[j])); }
+    proof { assert(gate_mid_ok(old(conns)@, pre4, config.conn_timeout_ms)); }''', 'after'),
+    ('return;', '''proof {
+            assert forall|i: int| 0 <= i < conns.len() implies #[trigger] old(conns)[i].same_acct(&conns[i]) && conns[i].conn_timeout_ms == config.conn_timeout_ms
+                && conns[i].quality_cache == old(conns)[i].quality_cache && conns[i].latch_wf() by {
+                assert(conns[i].same_except_stall_clear(&old(conns)[i]));
             }
-            assert forall|j: int| 0 <= j < c_nx implies (#[trigger] conns[j]).latch_wf() by {
+            if exists|i: int| 0 <= i < conns.len() && (#[trigger] conns[i]).usable(current_time_ms) {
+                let w = choose|i: int| 0 <= i < conns.len() && (#[trigger] conns[i]).usable(current_time_ms);
+                assert(!conns[w].stall_gated);
+            }
+        }''', 'before'),
+    ('let c = &mut conns[c_ix];\n        c.update_silence_pull', 'let ghost before3 = conns@;\n        let c = &mut conns[c_ix];\n        let ghost c0 = *c;\n        proof { assert(c0.same_except_timeout(&old(conns)[c_ix as int])); assert(old(conns)[c_ix as int].stall_gate_events < 0x7fff_ffff_ffff_ffff); }\n        c.update_silence_pull', 'replace'),
+    ('c.update_stall_latch(current_time_ms, min_in_flight, stale_ceiling_ms);', 'let ghost c1 = *c;', 'before'),
+    ('c.update_stall_latch(current_time_ms, min_in_flight, stale_ceiling_ms);', '''let ghost cfin = *c;
+        proof {
+            assert(c0.same_acct(&c1)); assert(c1.same_acct(&cfin)); assert(old(conns)[c_ix as int].same_acct(&c0));
+            assert(old(conns)[c_ix as int].same_acct(&cfin));
+            assert(cfin.conn_timeout_ms == config.conn_timeout_ms && cfin.quality_cache == old(conns)[c_ix as int].quality_cache && cfin.latch_wf());
+            assert(conns[c_ix as int] == cfin);
+            assert forall|j: int| 0 <= j < c_nx implies old(conns)[j].same_acct(&#[trigger] conns[j]) && conns[j].conn_timeout_ms == config.conn_timeout_ms
+                && conns[j].quality_cache == old(conns)[j].quality_cache && conns[j].latch_wf() by {
                 if j != c_ix { assert(conns[j] == before3[j]); }
             }
             assert forall|j: int| c_nx <= j < conns.len() implies (#[trigger] conns[j]).same_except_timeout(&old(conns)[j]) && conns[j].conn_timeout_ms == config.conn_timeout_ms by {
-                assert(conns[j] == before3[j]); assert(before3[j].same_except_timeout(&old(conns)[j]));
+                assert(conns[j] == before3[j]);
             }
         }''', 'after'),
-    ('let c = &mut conns[c_ix];\n        let ghost c0', 'let ghost before3 = conns@;\n        let c = &mut conns[c_ix];\n        let ghost c0', 'replace'),
     ('@END', '''proof {
-        assert forall|j: int| 0 <= j < conns.len() implies #[trigger] conns[j].healthy(current_time_ms) == pre4[j].healthy(current_time_ms) by {}
-        let ex_new = exists|j: int| 0 <= j < conns.len() && #[trigger] conns[j].healthy(current_time_ms);
-        let ex_old = exists|j: int| 0 <= j < pre4.len() && #[trigger] pre4[j].healthy(current_time_ms);
+        assert forall|j: int| 0 <= j < conns.len() implies #[trigger] conns[j].healthy(current_time_ms) == pre4[j].healthy(current_time_ms) by {
+            assert(conns[j].same_except_gated(&pre4[j]));
+        }
+        let ex_new = exists_healthy(conns@, current_time_ms);
+        let ex_old = exists_healthy(pre4, current_time_ms);
         if ex_new { let j = choose|j: int| 0 <= j < conns.len() && #[trigger] conns[j].healthy(current_time_ms); assert(pre4[j].healthy(current_time_ms)); }
         if ex_old { let j = choose|j: int| 0 <= j < pre4.len() && #[trigger] pre4[j].healthy(current_time_ms); assert(conns[j].healthy(current_time_ms)); }
         assert(ex_new == ex_old);
         assert forall|i: int| 0 <= i < conns.len() implies #[trigger] old(conns)[i].same_acct(&conns[i])
-            && conns[i].conn_timeout_ms == config.conn_timeout_ms && conns[i].quality_cache == old(conns)[i].quality_cache by {
-            assert(old(conns)[i].same_acct(&pre4[i]));
+            && conns[i].conn_timeout_ms == config.conn_timeout_ms && conns[i].quality_cache == old(conns)[i].quality_cache && conns[i].latch_wf()
+            && conns[i].stall_gated == (ex_new && (conns[i].spec_latched() || conns[i].silence_pulled)) by {
+            assert(old(conns)[i].same_acct(&pre4[i])); assert(conns[i].same_except_gated(&pre4[i]));
         }
-        assert forall|i: int| 0 <= i < conns.len() implies (#[trigger] conns[i]).latch_wf() by {
-            assert(pre4[i].latch_wf()); assert(conns[i].same_except_gated(&pre4[i]));
+        assert forall|i: int| 0 <= i < conns.len() implies (#[trigger] conns[i]).latch_wf() && conns[i].conn_timeout_ms == config.conn_timeout_ms && conns[i].quality_cache == old(conns)[i].quality_cache
+            && conns[i].stall_gated == (ex_new && (conns[i].spec_latched() || conns[i].silence_pulled)) by {
+            assert(old(conns)[i].same_acct(&pre4[i])); assert(conns[i].same_except_gated(&pre4[i]));
+        }
+        // C03: the gate never excludes the last usable link
+        if exists|i: int| 0 <= i < conns.len() && (#[trigger] conns[i]).usable(current_time_ms) {
+            if ex_new {
+                let h = choose|j: int| 0 <= j < conns.len() && #[trigger] conns[j].healthy(current_time_ms);
+                assert(conns[h].usable(current_time_ms) && !conns[h].stall_gated);
+            } else {
+                let w = choose|i: int| 0 <= i < conns.len() && (#[trigger] conns[i]).usable(current_time_ms);
+                assert(!conns[w].stall_gated);
+            }
         }
     }''', 'before'),
 ]
 
-IDX_REQUIRES = ['forall|i: int| 0 <= i < old(conns).len() ==> ' + CNT_OK % ('old(conns)', 'old(conns)', 'old(conns)') + ' && 0 <= old(conns)[i].window && old(conns)[i].batch_sender.wf()',
+IDX_REQUIRES = ['gate_pre_ok(old(conns)@)', WF_SEL('old(conns)'),
                 'current_time_ms > 0']
 IDX_ENSURES = [
     'final(conns).len() == old(conns).len()',
+    'forall|i: int| 0 <= i < old(conns).len() ==> q_ok((#[trigger] final(conns)[i]).quality_cache.multiplier)',
+    C('C03.select.select_connection_idx.no_blackout_while_a_usable_uplink_exists',
+      '(exists|i: int| 0 <= i < final(conns).len() && (#[trigger] final(conns)[i]).usable(current_time_ms)) ==> r is Some'),
     'forall|i: int| 0 <= i < old(conns).len() ==> (#[trigger] final(conns)[i]).latch_wf()',
     C('C12.select.select_connection_idx.decision_never_changes_liveness_or_accounting', 'forall|i: int| 0 <= i < old(conns).len() ==> #[trigger] old(conns)[i].same_acct(&final(conns)[i])'),
     C('C04.select.select_connection_idx.result_is_eligible', 'r is Some ==> r.unwrap() < final(conns).len() && final(conns)[r.unwrap() as int].eligible(current_time_ms)'),
@@ -558,7 +653,7 @@ IDX_ENSURES = [
 ]
 IDX_SPLICES = [
     ('match config.mode {', '''proof {
-        assert forall|i: int| 0 <= i < conns.len() implies 0 <= (#[trigger] conns[i]).window && conns[i].batch_sender.wf() by { assert(old(conns)[i].same_acct(&conns[i])); }
+        assert forall|i: int| 0 <= i < conns.len() implies 0 <= (#[trigger] conns[i]).window && conns[i].batch_sender.wf() && q_ok(conns[i].quality_cache.multiplier) by { assert(old(conns)[i].same_acct(&conns[i])); }
     }
     let ghost gated = conns@;''', 'before'),
     ('match config.mode {', 'let res = match config.mode {', 'replace'),
@@ -571,6 +666,15 @@ IDX_SPLICES = [
         assert forall|i: int| 0 <= i < conns.len() implies (#[trigger] conns[i]).latch_wf() by {
             assert(gated[i].latch_wf());
             assert(conns[i] == gated[i] || conns[i].same_except_qc(&gated[i]));
+        }
+        // C03: usable after selection <=> usable on the gated snapshot; the gate left a usable ungated link
+        if exists|i: int| 0 <= i < conns.len() && (#[trigger] conns[i]).usable(current_time_ms) {
+            let w = choose|i: int| 0 <= i < conns.len() && (#[trigger] conns[i]).usable(current_time_ms);
+            assert(conns[w] == gated[w] || conns[w].same_except_qc(&gated[w]));
+            assert(gated[w].usable(current_time_ms));
+            let u = choose|j: int| 0 <= j < gated.len() && (#[trigger] gated[j]).usable(current_time_ms) && !gated[j].stall_gated;
+            assert(gated[u].eligible(current_time_ms) && gated[u].connected);
+            assert(res is Some);
         }
     }
     res''', 'before'),
